@@ -48,7 +48,8 @@ PINNED_NODES = {
 }
 KIND_PATTERNS = ('dedicated', 'shared', 'facility-first', 'sub-first', 'mixed', 'trunk', 'trunk-mixed')
 PLACEMENTS = ('one-site', 'two-sites', 'three-sites')
-PROPS = (None, 'mirror_port', 'mirror_vlan', 'mirror_direction', 'controller_url', 'ero', 'mirror-complete')
+# (ero-graph: an explicit route given as a graph reference, ero-z2a: a route with the reverse direction only - both are SET)
+PROPS = (None, 'mirror_port', 'mirror_vlan', 'mirror_direction', 'controller_url', 'ero', 'mirror-complete', 'ero-graph', 'ero-z2a')
 
 
 def table_drift():
@@ -118,6 +119,17 @@ def prop_kwargs(prop):
         return {}
     if prop == 'mirror-complete':
         return dict(mirror_port='p1', mirror_direction=MirrorDirection.Both)
+    if prop == 'ero-graph':
+        from fim.slivers.path_info import PathRepresentationType
+        e = ERO(etype=PathRepresentationType.Graph)
+        e.set('route-graph-id')
+        return {'ero': e}
+    if prop == 'ero-z2a':
+        e = ERO()
+        p = Path()
+        p.set(z2a=['b', 'a'])
+        e.set(p)
+        return {'ero': e}
     if prop == 'ero':
         e = ERO()
         p = Path()
